@@ -47,4 +47,17 @@ mod verif_limitsort {
     #[kani::proof]
     #[kani::unwind(7)]
     fn limit_sort_n4_l5() { run::<4>(5); }
+    // thorough tier: more items (the mid-stream sort+truncate fires up to three times)
+    #[kani::proof]
+    #[kani::unwind(9)]
+    fn limit_sort_n7_l1() { run::<7>(1); }
+    #[kani::proof]
+    #[kani::unwind(9)]
+    fn limit_sort_n7_l2() { run::<7>(2); }
+    #[kani::proof]
+    #[kani::unwind(9)]
+    fn limit_sort_n7_l3() { run::<7>(3); }
+    #[kani::proof]
+    #[kani::unwind(10)]
+    fn limit_sort_n8_l2() { run::<8>(2); }
 }
